@@ -36,7 +36,7 @@ import (
 	"verif/vx"
 )
 
-var keys = []string{"a", "a.", "a-", "a.0", "a.00000000000000000001", "ab"}
+var keys = []string{"a", "a.", "a-", "a.0", "a.00000000000000000001", "a.00000000000000000002y", "ab"} // the two long ones: records of OTHER keys that sort between versions of "a", under two different 20-byte heads
 
 func val(k string, v int) string { return fmt.Sprintf("%s@%d", k, v) }
 
